@@ -17,7 +17,8 @@
    a list in ascending item id (the harness sorts the values of a message by client handle, which
    the driver makes monotone in the item id); BTreeMaps are lists in ascending key order.
    Every Rust panic site that can be reached is an explicit [None] outcome (marker -2 in [run]):
-     - "SubscriptionExpired got a notification" / "SubscriptionCreated got a notification"
+     - "SubscriptionCreated got a notification" (and, before its fix, "SubscriptionExpired got
+       a notification")
      - "Notification's sequence number is not sequential"
      - "Publishing interval should have been revised to min interval"
      - `lifetime_counter -= 1` on 0 (overflow checks)
@@ -263,14 +264,17 @@ Definition handle_result (s : sub) (now : Z) (a : action) (notif : option msg) :
       enqueue_fresh s1 now 0
   | ANotifs => match notif with Some n => enqueue s n | None => Some s end
   | ACreated => match notif with Some _ => None | None => Some s end
-  | AExpired => match notif with
-                | Some _ => None
-                | None => enqueue_fresh (set_items s []) now 2
-                end
+  | AExpired =>
+      (* after "fix: subscription expiry panicked when an item reported in the same cycle":
+         the notification of the expiring cycle is discarded, its sequence number reused *)
+      let s1 := match notif with Some n => set_seqnext s (m_seq n) | None => s end in
+      enqueue_fresh (set_items s1 []) now 2
   end.
 
-(* Subscription::tick.  timer = TickTimerFired, rq = publishing_req_queued *)
-Definition sub_tick (s : sub) (vars : list Z) (now : Z) (timer rq : bool) : option sub :=
+(* Subscription::tick.  timer = TickTimerFired, rq = publishing_req_queued; [hr] is
+   handle_state_result (an argument so that the code before a fix can be run, see C21 Legacy) *)
+Definition sub_tick_g (hr : sub -> Z -> action -> option msg -> option sub)
+           (s : sub) (vars : list Z) (now : Z) (timer rq : bool) : option sub :=
   bind (if timer then
           if s_state s =? 1 then Some (true, s)
           else if s_interval s <=? 0 then None
@@ -285,8 +289,9 @@ Definition sub_tick (s : sub) (vars : list Z) (now : Z) (timer rq : bool) : opti
     let more := 1 <? len (s_notifs s2) in
     if na || pie || rq then
       bind (update_state s2 timer na more rq pie)
-           (fun r => handle_result (snd r) now (fst r) notif)
+           (fun r => hr (snd r) now (fst r) notif)
     else Some s2).
+Definition sub_tick := sub_tick_g handle_result.
 
 (* ---------------------------------------------------------------------- subscriptions.rs *)
 
@@ -458,6 +463,11 @@ Definition sanitize_samp (s : Z) : Z :=
 Definition sanitize_qsize (q : Z) : Z :=
   if (q =? 0) || (q =? 1) then 1 else if MAX_QUEUE <? q then MAX_QUEUE else q.
 
+(* MonitoredItem::new for a Value attribute without filter *)
+Definition new_item (id var mode handle samp qsize : Z) (discard : bool) (now : Z) : item :=
+  mk_item id var (if mode =? 0 then 0 else if mode =? 1 then 1 else 2)
+          handle (sanitize_samp samp) discard (sanitize_qsize qsize) [] now None.
+
 (* ------------------------------------------------------------------------ operations *)
 Inductive op :=
 | OWrite (v x : Z)
@@ -476,14 +486,17 @@ Record case := mk_case { c_nvars : Z; c_ops : list op }.
 Record snap := mk_snap {
   sn_subs : list (Z * Z * Z);                  (* id, state, pending notifications *)
   sn_keys : list (Z * Z);                      (* retransmission queue keys *)
-  sn_reqs : list Z }.                          (* queued request ids, oldest first *)
+  sn_reqs : list Z;                            (* queued request ids, oldest first *)
+  sn_pdata : list Z }.                         (* per subscription (same order): how many of the
+                                                  pending notifications are data changes *)
 Record opres := mk_opres {
   o_status : Z; o_msg : option msg; o_resps : list resp; o_snap : snap }.
 
 Definition snapshot (y : sys) : snap :=
   mk_snap (map (fun s => (s_id s, s_state s, len (s_notifs s))) (y_subs y))
           (rt_keys (y_retrans y))
-          (map q_rid (y_reqs y)).
+          (map q_rid (y_reqs y))
+          (map (fun s => len (filter (fun m => m_kind m =? 1) (s_notifs s))) (y_subs y)).
 
 Fixpoint set_nth {A} (n : nat) (x : A) (l : list A) : list A :=
   match l, n with
@@ -525,9 +538,7 @@ Definition step_g (y : sys) (opix : Z) (o : op) : option (sys * Z * option msg *
           if (var <? 0) || (len (y_vars y) <=? var)
           then Some (set_subs y (replace_sub s (y_subs y)), - (10 + ST_NODE_UNKNOWN), None, [])
           else
-            let it := mk_item (s_nextitem s) var (if mode =? 0 then 0 else if mode =? 1 then 1 else 2)
-                              opix (sanitize_samp samp) discard (sanitize_qsize qsize) []
-                              (y_now y) None in
+            let it := new_item (s_nextitem s) var mode opix samp qsize discard (y_now y) in
             let s1 := set_nextitem (set_items s (s_items s ++ [it])) (s_nextitem s + 1) in
             Some (set_subs y (replace_sub s1 (y_subs y)), s_nextitem s, None, [])
       end
@@ -597,7 +608,8 @@ Definition enc_resp (r : resp) : list Z :=
 Definition enc_sub3 (t : Z * Z * Z) : list Z := [fst (fst t); snd (fst t); snd t].
 Definition enc_key (k : Z * Z) : list Z := [fst k; snd k].
 Definition enc_snap (s : snap) : list Z :=
-  enc_list enc_sub3 (sn_subs s) ++ enc_list enc_key (sn_keys s) ++ enc_list enc_z (sn_reqs s).
+  enc_list enc_sub3 (sn_subs s) ++ enc_list enc_key (sn_keys s) ++ enc_list enc_z (sn_reqs s) ++
+  enc_list enc_z (sn_pdata s).
 Definition enc_opres (o : opres) : list Z :=
   7 :: o_status o ::
   (match o_msg o with None => [0] | Some m => 1 :: enc_msg m end) ++
@@ -663,7 +675,11 @@ Definition p_snap : parser snap := fun l =>
       match p_list p_key r1 with
       | Some (keys, r2) =>
           match p_list p_z r2 with
-          | Some (reqs, r3) => Some (mk_snap subs keys reqs, r3)
+          | Some (reqs, r3) =>
+              match p_list p_z r3 with
+              | Some (pd, r4) => Some (mk_snap subs keys reqs pd, r4)
+              | None => None
+              end
           | None => None
           end
       | None => None
